@@ -460,6 +460,36 @@ def gen_program_retirement_window(rng):
     return prog
 
 
+def gen_program_enqueue_during_start(rng):
+    """One or two tasks are submitted by another thread WHILE start() (or a restart) is running, and nothing is submitted
+    afterwards: nothing later can rescue a task that start() and enqueue() both left to the other.  The controller then
+    waits for exactly those tasks."""
+    maxt = rng.choice([1, 2, 3])
+    mint = rng.choice([0, 0, min(1, maxt)])
+    prog = {"max": maxt, "min": mint, "timeout": rng.choice([0.005, 0.01, 0.02]), "queue_size": 0,
+            "controller": [], "enqueuers": []}
+    ops = prog["controller"]
+    if rng.random() < 0.5:
+        ops.append(["start"])
+        ops.append(["enq", "c0", "ret"])
+        ops.append(["wait", "c0"])
+        ops.append(["stop"])
+    n = rng.choice([1, 1, 2])
+    kinds = [rng.choice(["ret", "ret", "exc"]) for _ in range(n)]
+    if maxt >= 2 and n == 2 and rng.random() < 0.5:
+        kinds = ["gate", "ret"]           # the first one waits for the controller, the second must not wait for it
+    eops = [["sleep", rng.choice([1, 2, 4])]]
+    for i, k in enumerate(kinds):
+        eops.append(["enq", "e0_%d" % (i + 1), k] + ([1] if k == "gate" else []))
+    prog["enqueuers"].append(eops)
+    ops.append(["go", 0])
+    ops.append(["start"])
+    ops.append(["sleep", 40])
+    for i in reversed(range(len(kinds))):
+        ops.append(["wait", "e0_%d" % (i + 1)])
+    return prog
+
+
 def gen_program_start_under_load(rng):
     """start() (or a restart) while other threads keep submitting tasks that outlive the call, then - once the pool
     has gone quiet and shrunk - one more task that the controller waits for."""
